@@ -221,7 +221,7 @@ def run(ctx):
 
 
 def replay(ctx, case):
-    if case.get('part') == 'c13s':
+    if case.get('part') in ('c13s', 'c13mono'):
         return __import__('importlib').import_module('props.c13s').replay(ctx, case, THEOREM)
     args, mres, exp = model([case])
     case['csv_in'] = csv_render([[case['hdr']] + case['A']])[0]
